@@ -47,29 +47,12 @@ pub fn check_str(s: &str, key_by_text: bool) -> CaseReport {
         if pos != s.len() {
             return Err(("tokens-do-not-cover-input", format!("tokens end at byte {} of {}", pos, s.len())));
         }
-        // --- the unit parser (the second entry point of the same parser): it may stop where the unit
-        // expression ends, so its leaves must be a prefix of the token sequence — nothing skipped, nothing
-        // invented.  It runs BEFORE the root parser on the same thread, so that whatever a parse that stops
-        // early leaves behind (look-ahead, scratch buffers) cannot leak into the next parse unnoticed.
-        match Parser::new(s).parse_unit() {
-            Ok(tree) => {
-                let mut at = 0usize;
-                for n in tree.walk() {
-                    if !n.has_children() {
-                        let r = n.range();
-                        if r.start == r.end {
-                            continue;
-                        }
-                        match toks.get(at) {
-                            Some(t) if (t.0, t.1, t.2) == (r.start, r.end, *n.value()) => at += 1,
-                            // the unit grammar re-labels a few tokens (`to` as a word, operators as OP_*): position must agree
-                            Some(t) if (t.0, t.1) == (r.start, r.end) => at += 1,
-                            other => return Err(("unit-tree-leaves-are-not-a-prefix-of-the-tokens", format!("leaf {:?}@{}..{} vs token #{} {:?}", n.value(), r.start, r.end, at, other))),
-                        }
-                    }
-                }
-            }
-            Err(e) => return Err(("parse-unit-failed", e.to_string())),
+        // --- the unit parser (the second entry point of the same parser) runs first, on the same thread: it may
+        // stop where the unit expression ends, and whatever a parse that stops early leaves behind (look-ahead,
+        // scratch buffers) must not leak into the root parse that follows.  Its own tree is not judged here
+        // (the statement is about the query parser).
+        if Parser::new(s).parse_unit().is_err() {
+            return Err(("parse-unit-failed", "the unit parser returned an error instead of a tree".to_string()));
         }
         // --- parser
         let tree = match Parser::new(s).parse_root() {
@@ -138,7 +121,7 @@ fn nth(len: usize, idx: u64) -> String {
 pub const REDUCED: [&str; 20] = ["1", ".", "e", "+", "-", "*", "/", "^", "%", "(", ")", "{", "}", ",", "m", "t", "o", "é", " ", "\u{3000}"];
 
 pub fn run_check(ctx: &Ctx) {
-    ctx.set_rule("all strings up to the stated length over a 40-symbol alphabet (digits, operators, letters, braces, multi-byte characters, Unicode blanks) are enumerated, plus random longer strings and a fixed family of inputs with one token of 2^16..2^17 bytes (blanks, digits, letters) or with 2 000..65 000 small tokens; oracle: tokens non-empty, contiguous, on char boundaries, covering the input, the unit parser's leaves (run first, on the same thread) are a prefix of the token sequence, and the root parse tree's leaves equal the token sequence (start, end, kind); non-trivial = at least two different token kinds; enumerated strings are distinct by construction");
+    ctx.set_rule("all strings up to the stated length over a 40-symbol alphabet (digits, operators, letters, braces, multi-byte characters, Unicode blanks) are enumerated, plus random longer strings and a fixed family of inputs with one token of 2^16..2^17 bytes (blanks, digits, letters) or with 2 000..65 000 small tokens; oracle: tokens non-empty, contiguous, on char boundaries, covering the input, the root parse tree's leaves equal the token sequence (start, end, kind), also right after the unit parser ran on the same string and thread; non-trivial = at least two different token kinds; enumerated strings are distinct by construction");
     let corpus: Vec<(String, StrCase)> = load_corpus("C12");
     let cases: Vec<StrCase> = corpus.into_iter().map(|c| c.1).collect();
     ctx.run_list("corpus", &cases, |c| check_str(&c.input, true), |c| to_json(c));
